@@ -27,11 +27,12 @@ GS == {TLog[i].g : i \in {j \in 1..NL : "g" \in DOMAIN TLog[j]}}
 VARIABLES
   l,          \* next line to consume
   pend,       \* [GS -> [st, line, pre, pc, acc, cont]]
-  cancelled,  \* set of cancelled context ids
+  cancelled,  \* set of context ids whose cancellation has been announced (it may be observed from now on)
+  cdone,      \* set of context ids whose cancellation has completed (calls made from now on must see it)
   rs,         \* [GS -> state of bigbuff.Range's control flow, "none" outside Range]
   sil         \* silent steps since the last consumed line
 
-tvars == <<vars, l, pend, cancelled, rs, sil>>
+tvars == <<vars, l, pend, cancelled, cdone, rs, sil>>
 
 Idle == [st |-> "idle", line |-> 0, pre |-> FALSE, pc |-> "", acc |-> <<>>, cont |-> FALSE]
 NoRs == [s |-> "none", v |-> 0, r |-> ""]
@@ -40,7 +41,7 @@ TVInit ==
   /\ Init
   /\ l = 1
   /\ pend = [g \in GS |-> Idle]
-  /\ cancelled = {}
+  /\ cancelled = {} /\ cdone = {}
   /\ rs = [g \in GS |-> NoRs]
   /\ sil = 0
   /\ TLCSet(1, 0)
@@ -79,7 +80,7 @@ TReset ==
                   ELSE [kind |-> "default"]
   /\ start' = [c \in Cons |-> 0] /\ stream' = [c \in Cons |-> <<>>]
   /\ pend' = [g \in GS |-> Idle]
-  /\ cancelled' = {}
+  /\ cancelled' = {} /\ cdone' = {}
   /\ rs' = [g \in GS |-> NoRs]
 
 \* control flow of bigbuff.Range, observed through the logging consumer
@@ -106,10 +107,10 @@ TCall ==
      /\ pend[g].st = "idle"
      /\ RsOnCall(g, Cur.op)
      /\ pend' = [pend EXCEPT ![g] = [st |-> "called", line |-> l,
-                                     pre |-> ("ctx" \in DOMAIN Cur /\ Cur.ctx \in cancelled),
+                                     pre |-> ("ctx" \in DOMAIN Cur /\ Cur.ctx \in cdone),
                                      pc |-> IF Cur.op = "BRange" THEN "diff0" ELSE "",
                                      acc |-> <<>>, cont |-> FALSE]]
-  /\ UNCHANGED <<vars, cancelled>>
+  /\ UNCHANGED <<vars, cancelled, cdone>>
 
 TRet ==
   /\ IsEv("ret") /\ Consume
@@ -118,25 +119,30 @@ TRet ==
      /\ RetLine(g) = l
      /\ RsOnRet(g, Cur.op, IF "r" \in DOMAIN Cur THEN Cur.r ELSE "ok")
      /\ pend' = [pend EXCEPT ![g] = Idle]
-  /\ UNCHANGED <<vars, cancelled>>
+  /\ UNCHANGED <<vars, cancelled, cdone>>
 
 TCancel ==
   /\ IsEv("cancel") /\ Consume
   /\ cancelled' = cancelled \cup {Cur.ctx}
-  /\ UNCHANGED <<vars, pend, rs>>
+  /\ UNCHANGED <<vars, pend, rs, cdone>>
+
+TCancelled ==
+  /\ IsEv("cancelled") /\ Consume
+  /\ cdone' = cdone \cup {Cur.ctx}
+  /\ UNCHANGED <<vars, pend, rs, cancelled>>
 
 TRBegin ==
   /\ IsEv("rbegin") /\ Consume
   /\ rs[Cur.g].s = "none"
   /\ rs' = [rs EXCEPT ![Cur.g] = [s |-> "loop", v |-> 0, r |-> ""]]
-  /\ UNCHANGED <<vars, pend, cancelled>>
+  /\ UNCHANGED <<vars, pend, cancelled, cdone>>
 
 TCb ==
   /\ IsEv("cb") /\ Consume
   /\ LET g == Cur.g IN
      /\ rs[g].s = "got" /\ rs[g].v = Cur.v          \* the callback sees exactly the value Get returned
      /\ rs' = [rs EXCEPT ![g].s = CASE Cur.out = "true" -> "cbtrue" [] Cur.out = "false" -> "cbfalse" [] OTHER -> "panicked"]
-  /\ UNCHANGED <<vars, pend, cancelled>>
+  /\ UNCHANGED <<vars, pend, cancelled, cdone>>
 
 TREnd ==
   /\ IsEv("rend") /\ Consume
@@ -146,7 +152,7 @@ TREnd ==
         \/ rs[g].s = "rolled" /\ rs[g].r = "" /\ Cur.r = "panic"
         \/ rs[g].s = "loop" /\ Cur.r = "canceled"
      /\ rs' = [rs EXCEPT ![g] = NoRs]
-  /\ UNCHANGED <<vars, pend, cancelled>>
+  /\ UNCHANGED <<vars, pend, cancelled, cdone>>
 
 \* a pending call of g could take a step of the specification now (so the real call should not be stuck)
 CanProgress(g) ==
@@ -182,19 +188,19 @@ TQuiescent ==
   \* C04: the cleaner has nothing left to do, and the real size is the model's
   /\ Chk("reclaim") => (bclosed \/ CleanShift = 0)
   /\ (Chk("reclaim") \/ Chk("retention")) => Cur.size = Size
-  /\ UNCHANGED <<vars, pend, cancelled, rs>>
+  /\ UNCHANGED <<vars, pend, cancelled, cdone, rs>>
 
 TFinal ==
   /\ IsEv("final") /\ Consume
   /\ Chk("close") => (Cur.leaked = 0 /\ Cur.returned)
-  /\ UNCHANGED <<vars, pend, cancelled, rs>>
+  /\ UNCHANGED <<vars, pend, cancelled, cdone, rs>>
 
 -----------------------------------------------------------------------------
 (* silent steps: linearization points of pending calls, library-internal steps *)
 
 \* silent steps are only placed immediately before a line that is not a call/cancel (a normal form that loses no
 \* behaviours: a later linearization point only sees more cancelled contexts and more pending calls)
-SilentOK == l <= NL /\ Cur.ev \notin {"call", "cancel", "rbegin", "reset"}
+SilentOK == l <= NL /\ Cur.ev \notin {"call", "cancel", "cancelled", "rbegin", "reset"}
 Silent == sil' = sil /\ l' = l
 
 LinPut(g) ==
@@ -367,11 +373,11 @@ TSilent ==
         /\ \/ \E c \in Cons : CloseBegin(NoG, c) \/ CloseCancel(c) \/ CloseFinish(c)
            \/ BCloseCancel \/ BCloseFinish
            \/ Clean
-  /\ UNCHANGED <<cancelled, rs>>
+  /\ UNCHANGED <<cancelled, cdone, rs>>
 
 TVNext ==
   \/ TSilent
-  \/ TReset \/ TCall \/ TRet \/ TCancel \/ TRBegin \/ TCb \/ TREnd \/ TQuiescent \/ TFinal
+  \/ TReset \/ TCall \/ TRet \/ TCancel \/ TCancelled \/ TRBegin \/ TCb \/ TREnd \/ TQuiescent \/ TFinal
 
 TVSpec == TVInit /\ [][TVNext]_tvars
 
